@@ -22,7 +22,10 @@ def lattice_objects(rng, n_ups=None, allow_delete=True, server_types=("autoscali
     n_srv = rng.randint(1, 2)
     for i in range(1, n_srv + 1):
         cap = rng.choice([600, 1200, 6000])
-        st = {"repl": rng.choice([1, 2, 3]), "durh": rng.choice([1, 2, 3, 1000]), "base": rng.choice([0, 0, 600, 5000]),
+        # storage duration in minutes: whole hours and durations that are not (the code keeps data for ceil(duration) hours);
+        # "durh" is that ceiling, "durmin" what the code is given
+        durmin = rng.choice([60, 120, 180, 60000, 150, 80, 200, 61])
+        st = {"repl": rng.choice([1, 2, 3]), "durh": -(-durmin // 60), "durmin": durmin, "base": rng.choice([0, 0, 600, 5000]),
               "cap": cap, "fabrate": rng.choice([20, 160]), "power": rng.choice([2, 13]), "idle": rng.choice([0, 1]),
               "fixed": 0}
         if with_fixed and rng.random() < 0.35:
@@ -33,7 +36,7 @@ def lattice_objects(rng, n_ups=None, allow_delete=True, server_types=("autoscali
             carbon_footprint_fabrication_per_storage_capacity=[st["fabrate"] / cap, "kg/kB"],
             power_per_storage_capacity=[st["power"] / cap, "W/kB"], lifespan=[LIFESPAN_H, "hour"],
             idle_power=[st["idle"], "W"], storage_capacity=[cap, "kB"],
-            data_replication_factor=[st["repl"], "dimensionless"], data_storage_duration=[st["durh"], "hour"],
+            data_replication_factor=[st["repl"], "dimensionless"], data_storage_duration=[st["durmin"], "min"],
             base_storage_need=[st["base"], "kB"])
         avail_ram = rng.choice([120, 60, 40, 24])
         avail_cpu = rng.choice([120, 60, 30])
